@@ -17,7 +17,7 @@ PPREC = {"*": 0, "/": 0, "%": 0, "+": 1, "-": 1, "::": 1, "<": 2, "<=": 2, ">": 
 PLEVEL = {"||": 0, "&&": 1, "<": 2, "<=": 2, ">": 2, ">=": 2, "==": 2, "!=": 2, "+": 3, "-": 3, "::": 3, "*": 4, "/": 4, "%": 4}
 ASSOC = {"+", "*", "&&", "||"}
 WIDTHS = [20, 40, 80, 100, 200]
-TOKRE = re.compile(r"\d+|[A-Za-z][A-Za-z0-9]*|->|::|<=|>=|==|!=|&&|\|\||[()+\-*/%<>!{},._]")
+TOKRE = re.compile(r"\d+|[A-Za-z][A-Za-z0-9]*|->|::|<=|>=|==|!=|&&|\|\||[()+\-*/%<>!{},._|:=;]")
 
 
 # ---------------------------------------------------------------- trees (python side)
@@ -97,10 +97,10 @@ def ends_member(t):
 
 
 def ends_field(t):
-    """does the printed form end with a member name?"""
+    """does the printed form end with a member name (without explicit type arguments)?"""
     h = t[0] if not isinstance(t, str) and t and isinstance(t[0], str) else ""
     if h == ".":
-        return True
+        return len(t) == 3
     if h in ("!", "neg"):
         return prec(t[1]) < 2 and ends_field(t[1])
     if h in OPS and len(t) == 3:
@@ -164,6 +164,65 @@ def simple_word(rng):
 PATS = [["pvariant", "A", ["ptuple", ["pid", "v"]]], ["pvariant", "B", ["ptuple", "_"]], ["pvariant", "C"], "_"]
 
 
+def gen_pat_tree(rng, depth):
+    """pattern in the harness' dump form"""
+    def single(d):
+        k = rng.below(8) if d > 0 else rng.below(3)
+        if k == 0:
+            return ["pid", rng.pick(["v", "w", "xs"])]
+        if k == 1:
+            return "_"
+        if k == 2:
+            return ["pvariant", rng.pick(["A", "Some", "None"])]
+        if k in (3, 4):
+            return ["pvariant", rng.pick(["A", "Some", "Pair"]), ["ptuple"] + [alts(d - 1) for _ in range(rng.range(1, 2))]]
+        if k in (5, 6):
+            return ["ptuple"] + [alts(d - 1) for _ in range(rng.range(1, 3))]
+        fs = []
+        for _ in range(rng.range(1, 2)):
+            f = rng.pick(["f", "g"])
+            fs.append([f, "short", ["pid", f]] if rng.chance(1, 2) else [f, "as", alts(d - 1)])
+        return ["pobj"] + fs
+    def alts(d):
+        if rng.chance(4, 5):
+            return single(d)
+        return ["por"] + [single(d) for _ in range(rng.range(2, 3))]
+    return alts(depth)
+
+
+def gen_case_pat(rng):
+    """a match-case pattern whose alternatives start with a tag, `_` or `{` (what the driver's lexer
+    can tell from a lambda parameter list); nested patterns are arbitrary"""
+    def top():
+        k = rng.below(5)
+        if k == 0:
+            return "_"
+        if k == 1:
+            return ["pvariant", rng.pick(["A", "None", "C"])]
+        if k in (2, 3):
+            return ["pvariant", rng.pick(["A", "Some", "Pair"]), ["ptuple"] + [gen_pat_tree(rng, rng.below(2)) for _ in range(rng.range(1, 2))]]
+        return ["pobj", ["f", "short", ["pid", "f"]]] + ([["g", "as", gen_pat_tree(rng, 1)]] if rng.chance(1, 2) else [])
+    if rng.chance(4, 5):
+        return top()
+    return ["por"] + [top() for _ in range(rng.range(2, 3))]
+
+
+def gen_block(rng, depth, ext):
+    sub = lambda: gen_tree(rng, depth - 1, ext)
+    t = ["block"]
+    for _ in range(rng.below(3)):
+        if rng.chance(1, 2):
+            st = ["let", gen_pat_tree(rng, rng.below(2))]
+            if rng.chance(1, 3):
+                st += [":", rng.pick(["int", "bool", ["tid", "Foo"]])]
+            t.append(st + [sub()])
+        else:
+            t.append(["stmt", sub()])
+    if rng.chance(5, 6):
+        t.append(["final", sub()])
+    return t
+
+
 def gen_tree(rng, depth, ext=False):
     """random expression tree; ext=True also uses member accesses (with and without type arguments),
     calls, tuples, blocks, if-else, match and lambdas with full sub-expressions in every position"""
@@ -181,12 +240,12 @@ def gen_tree(rng, depth, ext=False):
         if k == 3:
             return ["tuple"] + [sub() for _ in range(rng.range(2, 3))]
         if k == 4:
-            return ["block", ["final", sub()]]
+            return gen_block(rng, depth, ext)
         if k == 5:
-            return ["if", sub(), ["block", ["final", sub()]], ["block", ["final", sub()]]]
+            return ["if", sub(), gen_block(rng, depth, ext), gen_block(rng, depth, ext)]
         if k == 6:
             n = rng.range(1, 3)
-            return ["match", sub()] + [["case", PATS[i] if i < 3 and rng.chance(3, 4) else rng.pick(PATS), sub()] for i in range(n)]
+            return ["match", sub()] + [["case", gen_case_pat(rng), sub()] for i in range(n)]
         return [".", ["call", sub()], rng.pick(NAMES)]
     if rng.chance(1, 6):
         return [rng.pick(["!", "neg"]), sub()]
@@ -218,12 +277,16 @@ def kid_paths(t):
     if h == "lambda":
         return [(2,)]
     if h == "block":
-        return [(1, 1)]
+        return block_paths(t)
     if h == "if":
-        return [(1,), (2, 1, 1), (3, 1, 1)]
+        return [(1,)] + [(2,) + p for p in block_paths(t[2])] + [(3,) + p for p in block_paths(t[3])]
     if h == "match":
         return [(1,)] + [(i, 2) for i in range(2, len(t))]
     return []
+
+
+def block_paths(b):
+    return [(i, len(st) - 1) for i, st in enumerate(b[1:], 1)]
 
 
 def get_path(t, path):
@@ -247,10 +310,31 @@ def get_kids(t):
 def render_pat(p):
     if p == "_":
         return "_"
-    if len(p) == 2:
+    h = p[0]
+    if h == "pid":
         return p[1]
-    v = p[2][1]
-    return f"{p[1]}({v if isinstance(v, str) else v[1]})"
+    if h == "pvariant":
+        return p[1] + ("(" + ", ".join(render_pat(x) for x in p[2][1:]) + ")" if len(p) == 3 else "")
+    if h == "ptuple":
+        return "(" + ", ".join(render_pat(x) for x in p[1:]) + ")"
+    if h == "pobj":
+        return "{ " + ", ".join(f[0] if f[1] == "short" else f"{f[0]} as {render_pat(f[2])}" for f in p[1:]) + " }"
+    if h == "por":
+        return " | ".join(render_pat(x) for x in p[1:])
+    raise ValueError("cannot render pattern " + str(p))
+
+
+def render_block(b, inner):
+    parts = []
+    for st in b[1:]:
+        if st[0] == "let":
+            ty = f": {render_type(st[3])} " if len(st) == 5 else ""
+            parts.append(f"let {render_pat(st[1])}{' ' if not ty else ''}{ty}= {inner(st[-1])};")
+        elif st[0] == "stmt":
+            parts.append(inner(st[1]) + ";")
+        else:
+            parts.append(inner(st[1]))
+    return "{ " + " ".join(parts) + " }"
 
 
 def render_type(t):
@@ -276,9 +360,9 @@ def render_any(t, rng, operand, inner):
     if h == "lambda":
         return "(" + ", ".join(p[0] for p in t[1][1:]) + ") -> " + inner(t[2])
     if h == "block":
-        return "{ " + inner(t[1][1]) + " }"
+        return render_block(t, inner)
     if h == "if":
-        return f"if {inner(t[1])} {{ {inner(t[2][1][1])} }} else {{ {inner(t[3][1][1])} }}"
+        return f"if {inner(t[1])} {render_block(t[2], inner)} else {render_block(t[3], inner)}"
     if h == "match":
         return f"match {inner(t[1])} {{ " + ", ".join(f"{render_pat(c[1])} -> {inner(c[2])}" for c in t[2:]) + " }"
     raise ValueError("cannot render " + str(t))
@@ -331,6 +415,31 @@ def dump(t):
     return "(" + " ".join(dump(x) if not isinstance(x, str) else x for x in t) + ")"
 
 
+def gen_pattern(rng, depth, top=True):
+    """random pattern text: ids, `_`, variants with/without data, tuples, object patterns, or-patterns"""
+    def single(d):
+        k = rng.below(9) if d > 0 else rng.below(4)
+        if k == 0:
+            return rng.pick(["a", "b", "xs", "v1"])
+        if k == 1:
+            return "_"
+        if k in (2, 3):
+            return rng.pick(["A", "Some", "None", "Foo1"])
+        if k in (4, 5):
+            return rng.pick(["A", "Some", "Pair"]) + "(" + ", ".join(alts(d - 1) for _ in range(rng.range(1, 3))) + ")"
+        if k in (6, 7):
+            return "(" + ", ".join(alts(d - 1) for _ in range(rng.range(1, 3))) + (", " if rng.chance(1, 8) else "") + ")"
+        fs = []
+        for _ in range(rng.range(1, 3)):
+            f = rng.pick(["f", "g", "name"])
+            fs.append(f if rng.chance(1, 2) else f"{f} as {alts(d - 1)}")
+        return "{ " + ", ".join(fs) + " }"
+    def alts(d):
+        n = 1 if rng.chance(3, 4) else rng.range(2, 3)
+        return " | ".join(single(d) for _ in range(n))
+    return alts(depth)
+
+
 def gen_string_token(rng, avoid_escaped_quote=True):
     parts = []
     for _ in range(rng.range(0, 8)):
@@ -353,7 +462,7 @@ def gen_malformed(rng):
     for t in toks:
         if t == "(" and out and (out[-1] == ")" or out[-1][0].isalnum()):
             out.append(rng.pick(OPS))
-        out.append(t)
+        out.append("SEMI" if t == ";" else t)     # `;` separates the fields of an answer line
     return " ".join(out)
 
 
@@ -400,7 +509,7 @@ def norm_tokens(text):
     for i, t in enumerate(toks):
         if t == "," and i + 1 < len(toks) and toks[i + 1] == ")":
             continue
-        out.append(t)
+        out.append("SEMI" if t == ";" else t)     # `;` separates the fields of an answer line
     return " ".join(out)
 
 
@@ -434,7 +543,7 @@ class Runner:
         self.reported = set()
         self.stats = {"expr_lines": 0, "expr_roundtrip_ok": 0, "expr_known_failures": 0, "perr_both": 0,
                       "outside_fragment": 0, "rt_agrees_with_impl": 0, 
-                      "module_ok": 0, "module_perr": 0, "module_known_failures": 0, "str_lines": 0}
+                      "module_ok": 0, "module_perr": 0, "module_known_failures": 0, "str_lines": 0, "pat_lines": 0}
         self.trees = set()
         self.nontrivial = 0
         self.hist = {}
@@ -471,7 +580,7 @@ class Runner:
             a = impl[i] if i < len(impl) else "<missing>"
             m = mod[i] if i < len(mod) else "<missing>"
             src = common.unhex(l.split(" ")[2]).decode()
-            self.stats["str_lines" if l.startswith("S") else "expr_lines"] += 1
+            self.stats["str_lines" if l.startswith("S") else "pat_lines" if l.startswith("P") else "expr_lines"] += 1
             payload = {"protocol": "fmt-expr", "label": label, "op": l, "source": src, "impl": a, "model": m}
             if a.startswith("panic:") or a.startswith("<") or a.startswith("bad-op"):
                 self.violation("formatter/parser panicked or harness failed on this expression: " + a[:80], payload, ("x", l))
@@ -554,7 +663,7 @@ class Runner:
         best = None
         try:
             tree = sexp(t0)
-            if line.startswith("S"):
+            if line[0] in "SP":
                 raise ValueError
             cur = fails(tree)
             changed = cur is not None
@@ -669,6 +778,8 @@ def pair_enumeration():
     for x in subs:
         ts += [[".", x, "foo"], [".", x, "foo", ["targs", ["tid", "Foo"]]], ["call", x, "b", "1"], ["call", x], ["call", "f", x, x],
                ["tuple", x, "b"], ["tuple", "a", x, x], ["block", ["final", x]], ["neg", x], ["!", x],
+               ["block", ["let", ["pid", "v"], x], ["stmt", x], ["final", x]], ["block", ["stmt", x]], ["block", ["let", "_", ":", "int", x]],
+               ["if", "c", ["block", ["let", ["ptuple", ["pid", "v"], "_"], x], ["final", "v"]], ["block", ["stmt", x]]],
                ["lambda", ["params"], x], ["lambda", ["params", ["p"], ["q"]], x],
                ["if", x, ["block", ["final", x]], ["block", ["final", x]]],
                ["match", x, ["case", PATS[0], x], ["case", "_", x]], ["match", "y", ["case", PATS[2], x]],
@@ -716,7 +827,7 @@ def run(ctx):
     cdir = os.path.join(common.VERIF, "corpus", "C08")
     for f in sorted(os.listdir(cdir)) if os.path.isdir(cdir) else []:
         lines = [l.rstrip("\n") for l in open(os.path.join(cdir, f)) if l.strip() and not l.startswith("#")]
-        r.expr_batch([l for l in lines if l[0] in "ES"], f"corpus/{f}", model=model_ok)
+        r.expr_batch([l for l in lines if l[0] in "ESP"], f"corpus/{f}", model=model_ok)
         r.module_batch([(f, int(l.split(" ")[1]), common.unhex(l.split(" ")[2]).decode()) for l in lines if l[0] == "M"], f"corpus/{f}")
     # 2. exhaustive operator-pair enumeration, explicit and parser-minimal renderings, two widths
     pairs = pair_enumeration()
@@ -741,6 +852,9 @@ def run(ctx):
         lines.append(f"S {g.pick(WIDTHS)} {hexs(gen_string_token(g, avoid_escaped_quote=not g.chance(1, 10)))}")
     for _ in range(ctx.scale(1500, 20000)):
         lines.append(f"E 100 {hexs(gen_malformed(rng.fork()))}")
+    for _ in range(ctx.scale(2500, 40000)):
+        g = rng.fork()
+        lines.append(f"P {g.pick(WIDTHS)} {hexs(gen_pattern(g, g.range(0, 3)))}")
     for i in range(0, len(lines), 2000):
         r.expr_batch(lines[i:i + 2000], f"generated seed={ctx.seed}", model=model_ok)
     # 4. model-free reparse oracle on whole modules
@@ -767,6 +881,19 @@ def run(ctx):
         ca = canon_impl(out[0]) if out else "perr"
         if ca != "perr" and ";" in ca and ca.split(";")[0] != ca.split(";")[2]:
             ctx.known(f, f"`{src}` is printed `{ca.split(';')[1]}` and re-parsed as {ca.split(';')[2]}")
+    # composed statements with C09's models (Props/C08b.lean): audited when they build; another
+    # property's file being mid-edit must not fail this check
+    composed = "not checked in this run (SamVerif.Props.C08b, which imports Props/C09, does not build)"
+    try:
+        okb, _ = common.build_lean(["SamVerif.Props.C08b"])
+        if okb:
+            rb = common.audit("C08b")
+            composed = ("discharged: " + ", ".join(rb["discharged"])) if not rb["failed"] else \
+                ("FAILED: " + "; ".join(f"{n} ({w})" for n, w in rb["failed"]))
+            if rb["failed"]:
+                ctx.violation("composed C08xC09 obligations no longer check: " + composed, {"broken_theorems": rb["failed"]}, no_input=True)
+    except Exception as ex:   # best effort
+        composed += f" [{ex!r}]"
     st = r.stats
     ctx.cov.update({
         "evaluations": st["expr_lines"] + st["str_lines"] + st["module_ok"] + st["module_known_failures"],
@@ -778,18 +905,19 @@ def run(ctx):
                              "roundtrip_int": "0 <= i < 2^31 or i = -2^31 (all values the parser produces)"},
         "full_strength_theorems": ["roundtrip_expr_total (every expression: parseE (printE e) = some (regroup e))",
                                    "format_preserves_meaning / eval_regroup (every expression, every interpretation: same value/trap and event order)",
-                                   "roundtrip_str (every lexed string literal)", "paren_insensitive", "parseFuel_stable",
+                                   "roundtrip_str (every lexed string literal)", "roundtrip_pattern (every pattern)", "paren_insensitive", "parseFuel_stable",
                                    "roundtrip_expr_in_context", "former_witnesses_roundtrip", "member_name_before_lt"],
+        "composed_with_C09": composed,
         "legacy": "Model/Fmt.lean (round-2 fragment with opaque call arguments / if / match; theorems roundtrip_expr_partial, paren_insensitive used by C09b / C13b) is executed next to the full model on every line in its fragment (stats legacy_model_*)",
-        "pending": ["width_irrelevant (C09 layout theorem)",
-                    "still opaque: identifiers/literals, member names with their explicit type arguments, match patterns, lambda parameter lists; blocks with statements, `else if` chains, if-let guards",
-                    "declarations, types, statements, comments (reparse oracle only)"]})
+        "pending": ["still opaque: identifiers/literals, member names with their explicit type arguments, the type annotation of a `let`, lambda parameter lists; patterns are modelled separately (Model/FmtPat.lean, roundtrip_pattern) and enter the expression model as one unit",
+                    "`else if` chains, if-let guards, declarations, types, comments (reparse oracle only)",
+                    "a Doc-producing version of printE (so that tokens_at_one_width_suffice applies to the model's own document rather than to any document agreeing with it at one width)"]})
     ctx.assumptions += ["valid UTF-8 input", "int literal tokens in i32 range (out-of-range literals are C06)",
                         "token-level statement: the layout engine only inserts blanks/line breaks between tokens (C09); checked empirically here at widths 5..200"]
     return ctx.finish(res, trusted=common.TRUSTED_COMMON + [
-        "hand-written models Model/FmtFull.lean (printer arms literal/id, tuple, block with final expression, FieldAccess/MethodAccess/Call chains with argument lists, Unary, Binary incl. ends_with_member_name, IfElse with block branches, Match with cases, Lambda; parser parse_expression/parse_match/parse_if_else, parse_disjunction..parse_factor, parse_unary_expression, parse_function_call_or_field_access incl. the `<`-after-member-name rule and argument lists, parse_base_expression with nested-expression unwrapping, tuples, blocks and lambdas), Model/FmtEval.lean (evaluation semantics) and Model/Fmt.lean (tables; lex_str_lit_opt, unescape_quotes, process_raw_token)",
+        "hand-written models Model/FmtFull.lean (printer arms literal/id, tuple, block with let / expression statements and optional final expression, FieldAccess/MethodAccess/Call chains with argument lists, Unary, Binary incl. ends_with_member_name, IfElse with block branches, Match with cases, Lambda; parser parse_expression/parse_match/parse_if_else, parse_disjunction..parse_factor, parse_unary_expression, parse_function_call_or_field_access incl. the `<`-after-member-name rule and argument lists, parse_base_expression with nested-expression unwrapping, tuples, blocks and lambdas, parse_block / parse_statement), Model/FmtPat.lean (matching_pattern_to_document vs pattern_parser), Model/FmtEval.lean (evaluation semantics) and Model/Fmt.lean (tables; lex_str_lit_opt, unescape_quotes, process_raw_token)",
         "driver-side character lexer and token grouping of the fragment (Driver/C08.lean lexWords/group: member names with optional `<T>`, match patterns `U(v) ->`, `U ->`, `_ ->`, lambda parameter lists as single units) and the tree dump of harness/src/bin/c08.rs (erases locations, comments, resolved module references, field/tag orders; imports normalised by merge+sort)",
-        "not modelled (reparse oracle only): declarations, patterns, types, statements inside blocks, else-if chains, if-let, comments"])
+        "not modelled (reparse oracle only): declarations, types, else-if chains, if-let, comments"])
 
 
 def replay(ctx, path):
